@@ -85,6 +85,8 @@ type Person struct {
 	Tags   map[string]Val `json:"tags,omitempty"`
 	// SubTags are stored one level deeper, under tags/sub/<key> (nested map elements, symbol tags.sub.<key>)
 	SubTags map[string]Val `json:"subTags,omitempty"`
+	// DeepTags are stored two levels deeper, under tags/sub/deep/<key> (symbol tags.sub.deep.<key>, four segments)
+	DeepTags map[string]Val `json:"deepTags,omitempty"`
 	NoTags  bool           `json:"noTags,omitempty"` // no tags bucket at all
 	// Staff: the person has child data in the "staff" child store (bucket ext_staff inside the person's bucket)
 	Staff bool `json:"staff,omitempty"`
@@ -276,6 +278,20 @@ func (s *ScanSchema) Write(db *bbolt.DB, d *Dataset) error {
 					sort.Strings(skeys)
 					for _, k := range skeys {
 						setVal(sb, k, pe.SubTags[k])
+					}
+					if len(pe.DeepTags) > 0 {
+						db := sb.GetOrCreatePath("deep")
+						dkeys := make([]string, 0, len(pe.DeepTags))
+						for k := range pe.DeepTags {
+							dkeys = append(dkeys, k)
+						}
+						sort.Strings(dkeys)
+						for _, k := range dkeys {
+							setVal(db, k, pe.DeepTags[k])
+						}
+						if db.HasError() {
+							return db.GetError()
+						}
 					}
 					if sb.HasError() {
 						return sb.GetError()
